@@ -6,7 +6,7 @@ VARIABLE t
 Reg(n) == 1000 + n
 Why(r) == IF ~TwoDraws(r) THEN "TwoDraws" ELSE IF ~Friction(r) THEN "Friction" ELSE IF ~ZeroT(r) THEN "ZeroT"
           ELSE IF ~NVELimit(r) THEN "NVELimit" ELSE IF ~FDT(r) THEN "FDT" ELSE IF ~Isotropic(r) THEN "Isotropic"
-          ELSE IF ~PaddingAtRest(r) THEN "PaddingAtRest" ELSE "-"
+          ELSE IF ~PaddingAtRest(r) THEN "PaddingAtRest" ELSE IF ~StepNoise(r) THEN "StepNoise" ELSE "-"
 TInit == t \in 1..Len(Recs) /\ cfg = None /\ coeff = None /\ cache = {} /\ pc = "idle" /\ runs = 0 /\ TLCSet(Reg(t), Why(Recs[t]))
 TNext == UNCHANGED <<vars, t>>
 TSpec == TInit /\ [][TNext]_<<vars, t>>
